@@ -496,6 +496,22 @@ func (t *LT) exprP(e ast.Expr) (string, bool, error) {
 					return "", false, err
 				}
 				return "(Z.of_nat (List.length " + v + "))", false, nil
+			case "make":
+				// make([]T, 0[, cap]) is the empty list (capacity is not modelled)
+				if len(x.Args) >= 2 {
+					if tv, ok := t.p.Info.Types[x.Args[0]]; ok && tv.IsType() {
+						if _, isSlice := tv.Type.Underlying().(*types.Slice); isSlice {
+							if lv := t.p.Info.Types[x.Args[1]]; lv.Value != nil && lv.Value.ExactString() == "0" {
+								ct, err := t.coqType(tv.Type)
+								if err != nil {
+									return "", false, t.errf(e, "%v", err)
+								}
+								return "(@nil " + strings.TrimSuffix(strings.TrimPrefix(ct, "(list "), ")") + ")", false, nil
+							}
+						}
+					}
+				}
+				return "", false, t.errf(e, "unsupported make form")
 			case "append":
 				if len(x.Args) != 2 || x.Ellipsis != token.NoPos {
 					return "", false, t.errf(e, "unsupported append form")
